@@ -229,6 +229,12 @@ func evaluate(t ev.TB, c *Case, b *built, m *model) (out outcome) {
 					if info.negAdvance {
 						out.label("c04_negative_advance")
 					}
+					if info.tightSpaceBeforeTruncator > 0 {
+						out.label("c04_truncated_line_ends_after_space_tight")
+					}
+					if info.letterSpacedTight > 0 {
+						out.label("c04_letter_spaced_width_within_half_spacing_of_line")
+					}
 					if info.trivial != "" && api == apis[len(apis)-1] && !out.nontrivial {
 						out.label("c04_trivial_" + info.trivial)
 					}
